@@ -80,3 +80,75 @@ Lemma print_tree_expr_leaf p :
   print_tree (NNull p) = print_node (NNull p) /\ (forall x, print_tree (NBool p x) = print_node (NBool p x)) /\
   (forall z, print_tree (NInt p z) = print_node (NInt p z)).
 Proof. repeat split. Qed.
+
+(* ---- nodes with a child held in a field of interface type (ast.Node / ast.ParentNode) ----
+   The child enters the translation as two parameters: "the field is nil" and the value of its String() (gotrans:
+   n.F.String() is None = Go's panic when the field is nil).  The models hold the child itself, an optional child where
+   Go tests the field against nil; the lemmas say: if the child prints as s, the node prints as the translated method
+   says for (not nil, s), and a missing optional child is the nil field (whatever is put for its String()). *)
+Lemma print_acc_expr_matches_source p ns e s :
+  print_node e = Some s -> print_node (NAccExpr p ns e) = src_ast_DataRefExprNode_String false s ns.
+Proof.
+  intros H. cbn [print_node]. rewrite H. cbn [obind]. unfold src_ast_DataRefExprNode_String. cbv zeta. cbn [go_bind].
+  destruct ns; cbn [app]; now rewrite <- ?app_assoc.
+Qed.
+
+Lemma print_log_matches_source p body s :
+  print_tree body = Some s -> print_tree (NLog p body) = src_ast_LogNode_String false s.
+Proof.
+  intros H. cbn [print_tree]. rewrite H. cbn [obind]. unfold src_ast_LogNode_String. cbn [go_bind].
+  now rewrite <- ?app_assoc.
+Qed.
+
+Lemma print_msg_placeholder_matches_source p name body s :
+  print_tree body = Some s -> print_tree (NMsgPlaceholder p name body) = src_ast_MsgPlaceholderNode_String false s.
+Proof. intros H. cbn [print_tree]. rewrite H. reflexivity. Qed.
+
+(* Body is a ParentNode (a ListNode): its String() is the concatenation of the children's *)
+Lemma print_msg_plural_case_matches_source p v body s :
+  omap concat_b (opt_all (map print_tree body)) = Some s ->
+  print_tree (NMsgPluralCase p v body) = src_ast_MsgPluralCaseNode_String false s v.
+Proof.
+  intros H. cbn [print_tree]. cbv zeta. rewrite H. cbn [obind]. unfold src_ast_MsgPluralCaseNode_String. cbn [go_bind].
+  now rewrite <- ?app_assoc.
+Qed.
+
+Lemma print_css_matches_source p e suffix :
+  match e with
+  | None => forall junk, print_tree (NCss p None suffix) = src_ast_CssNode_String true junk suffix
+  | Some x => forall s, print_tree x = Some s -> print_tree (NCss p (Some x) suffix) = src_ast_CssNode_String false s suffix
+  end.
+Proof.
+  destruct e as [x|].
+  - intros s H. cbn [print_tree]. rewrite H. cbn [obind]. unfold src_ast_CssNode_String. cbv zeta. cbn [negb go_bind].
+    now rewrite <- ?app_assoc.
+  - intros junk. cbn [print_tree]. unfold src_ast_CssNode_String. cbv zeta. cbn [negb go_bind]. now rewrite <- ?app_assoc.
+Qed.
+
+Lemma print_if_cond_matches_source p cond body sb :
+  print_tree body = Some sb ->
+  match cond with
+  | None => forall junk, print_tree (NIfCond p None body) = src_ast_IfCondNode_String true junk false sb
+  | Some c => forall sc, print_tree c = Some sc -> print_tree (NIfCond p (Some c) body) = src_ast_IfCondNode_String false sc false sb
+  end.
+Proof.
+  intros Hb. destruct cond as [c|].
+  - intros sc Hc. cbn [print_tree]. rewrite Hc, Hb. cbn [omap obind]. unfold src_ast_IfCondNode_String. cbv zeta. cbn [negb go_bind].
+    reflexivity.
+  - intros junk. cbn [print_tree]. rewrite Hb. cbn [obind]. unfold src_ast_IfCondNode_String. cbv zeta. cbn [negb go_bind]. reflexivity.
+Qed.
+
+Lemma print_for_matches_source p var lst body ifempty sl sb :
+  print_tree lst = Some sl -> print_tree body = Some sb ->
+  match ifempty with
+  | None => forall junk, print_tree (NFor p var lst body None) = src_ast_ForNode_String false sl false sb true junk var
+  | Some ie => forall se, print_tree ie = Some se ->
+               print_tree (NFor p var lst body (Some ie)) = src_ast_ForNode_String false sl false sb false se var
+  end.
+Proof.
+  intros Hl Hb. destruct ifempty as [ie|].
+  - intros se He. cbn [print_tree]. rewrite Hl, Hb, He. cbn [omap obind]. unfold src_ast_ForNode_String. cbv zeta. cbn [negb go_bind].
+    f_equal. unfold c_for, c_in, c_ifempty, c_for_end. cbn [app]. rewrite <- ?app_assoc. cbn [app]. reflexivity.
+  - intros junk. cbn [print_tree]. rewrite Hl, Hb. cbn [obind]. unfold src_ast_ForNode_String. cbv zeta. cbn [negb go_bind].
+    f_equal. unfold c_for, c_in, c_for_end. cbn [app]. rewrite <- ?app_assoc. cbn [app]. reflexivity.
+Qed.
